@@ -16,7 +16,7 @@ from .history import Oracle, account, list_source, run_history
 PROP = "C04"
 LEVEL = "exploration"
 RULE = ("A case is one seeded history: a world (1-4 plates/troughs, every geometry class) and 1-60 add/remove/"
-        "aspirate/dispense calls with scalar, list (with repeats and trough aliases) and 2-D array arguments, "
+        "aspirate/dispense/transfer/distribute calls with scalar, list (with repeats and trough aliases) and 2-D array arguments, "
         "about one call in six aimed to be rejected at a chosen element. Distinct = distinct event-log digest; "
         "non-trivial = at least one accepted liquid call and at least one rejection fired.")
 COMPONENTS = {"real": ["robotools.Labware/Trough", "robotools.EvoWorklist/FluentWorklist.aspirate/dispense"],
@@ -50,7 +50,7 @@ class C04Oracle(Oracle):
         now_hex = [sess.volumes_hex(j) for j in range(nl)]
         now = [sess.volumes(j) for j in range(nl)]
         kind = op["op"]
-        if kind not in ("add", "remove", "aspirate", "dispense"):
+        if kind not in ("add", "remove", "aspirate", "dispense", "transfer", "distribute"):
             # non-liquid operation: nothing may move
             for j in range(nl):
                 if now_hex[j] != self.prev_hex[j]:
@@ -58,60 +58,69 @@ class C04Oracle(Oracle):
                     self.ledger.adopt(j, now[j])
             self.prev_hex = now_hex
             return
-        li = op["lab"]
+        named = {op[k] for k in ("lab", "src", "dst") if k in op}
         try:
             pl = opsmod.plan(op, sess.geos)
         except opsmod.PlanInvalid:
             pl = None
         # ---- frame: labware not named by the call
         for j in range(nl):
-            if j != li and now_hex[j] != self.prev_hex[j]:
-                self.fail("C04.frame", i, op, out.exc_type, f"{kind} on labware {li} changed labware {j}")
+            if j not in named and now_hex[j] != self.prev_hex[j]:
+                self.fail("C04.frame", i, op, out.exc_type, f"{kind} on labware {sorted(named)} changed labware {j}")
                 self.ledger.adopt(j, now[j])
         if pl is None:
-            # malformed arguments: only the named labware may have changed; resynchronise it
-            self.ledger.adopt(li, now[li])
+            # malformed arguments: only the named labware may have changed; resynchronise them
+            for j in named:
+                if 0 <= j < nl:
+                    self.ledger.adopt(j, now[j])
             self.prev_hex = now_hex
             return
-        addressed = {w for (_, w) in opsmod.addressed(pl)}
-        g = sess.geos[li]
-        for w in g.real_wells():
-            if w not in addressed:
-                k = self.flat_index(li, w)
-                if now_hex[li][k] != self.prev_hex[li][k]:
-                    self.fail("C04.frame", i, op, out.exc_type,
-                              f"{kind} did not address {g.name}{w} but its volume changed from "
-                              f"{float.fromhex(self.prev_hex[li][k])} to {float.fromhex(now_hex[li][k])}")
+        addressed = opsmod.addressed(pl)
+        for li in named:
+            g = sess.geos[li]
+            for w in g.real_wells():
+                if (li, w) not in addressed:
+                    k = self.flat_index(li, w)
+                    if now_hex[li][k] != self.prev_hex[li][k]:
+                        self.fail("C04.frame", i, op, out.exc_type,
+                                  f"{kind} did not address {g.name}{w} but its volume changed from "
+                                  f"{float.fromhex(self.prev_hex[li][k])} to {float.fromhex(now_hex[li][k])}")
         steps = pl["steps"]
         if out.ok:
             # accepted call: every requested element is booked, whatever the limits say
             for st in steps:
                 self.ledger.apply_step(st)
-            for w in addressed:
+            for (li, w) in sorted(addressed):
+                g = sess.geos[li]
                 exp = self.ledger.vol[li][w]
                 got = frac(now[li][w]) if now[li][w] == now[li][w] else None
-                if got is None or abs(got - exp) > tol(self.world, exp):
+                if got is None or abs(got - exp) > tol(self.world, exp) * (1 if kind in ("add", "remove", "aspirate", "dispense") else max(1, len(steps))):
                     self.fail("C04.ledger", i, op, "ok",
                               f"{g.name}{w}: reported {now[li][w]!r}, ledger (initial + added - removed) {float(exp)!r}",
                               {"well": list(w)})
+                    # continue from the twin's state so that one wrong booking is reported once, not at every later step
+                    for (lj, wj) in addressed:
+                        if now[lj][wj] == now[lj][wj]:
+                            self.ledger.vol[lj][wj] = frac(now[lj][wj])
                     break
                 if got is not None and got != exp:
                     # within slack: continue from the float the twin actually holds (per-step exactness)
                     self.ledger.vol[li][w] = got
-        elif out.injected:
+        elif out.injected or kind in ("transfer", "distribute"):
+            # interrupted, or a rejected multi-step operation whose sub-step order is the implementation's:
+            # nothing is claimed about the addressed wells (the frame condition above still holds)
             pass
         else:
             # rejected call: the addressed wells hold the prefix before the offending element, or nothing
-            import copy
-
-            trial = copy.deepcopy(self.ledger.vol[li])
+            li = op["lab"]
+            g = sess.geos[li]
+            wells = {w for (_, w) in addressed}
             verdict, k = self.simulate(li, steps)
             allowed = None
             if verdict == "reject":
                 allowed = {0, k}
-            states = []
-            cur = dict(trial)
-            states.append(dict(cur))
+            cur = dict(self.ledger.vol[li])
+            states = [dict(cur)]
             for st in steps:
                 v = frac(st[3])
                 cur[st[2]] = cur[st[2]] - v if st[0] == "rm" else cur[st[2]] + v
@@ -119,7 +128,7 @@ class C04Oracle(Oracle):
             match = None
             for j, stt in enumerate(states):
                 if all(now[li][w] == now[li][w] and abs(frac(now[li][w]) - stt[w]) <= tol(self.world, stt[w])
-                       for w in addressed):
+                       for w in wells):
                     if allowed is None or j in allowed:
                         match = j
                         break
@@ -132,7 +141,7 @@ class C04Oracle(Oracle):
                           {"k": k})
         # narrow resynchronisation of the addressed wells only
         if not out.ok:
-            for w in addressed:
+            for (li, w) in addressed:
                 if now[li][w] == now[li][w]:
                     self.ledger.vol[li][w] = frac(now[li][w])
         self.prev_hex = now_hex
@@ -173,7 +182,16 @@ class Program:
         r = rng.random()
         if r < 0.04:
             return g.gen_misc()
-        kind = rng.choice(["add", "remove", "aspirate", "dispense", "add", "remove"])
+        kind = rng.choice(["add", "remove", "aspirate", "dispense", "add", "remove", "transfer", "distribute"])
+        if kind == "transfer":
+            intent = rng.choice(["reject.underflow", "reject.overflow"]) if rng.random() < self.p_fault else "ok"
+            return g.gen_transfer(sess, intent)
+        if kind == "distribute":
+            intent = rng.choice(["reject.underflow", "reject.overflow"]) if rng.random() < self.p_fault else "ok"
+            d = g.gen_distribute(sess, intent)
+            if d is not None:
+                return d
+            kind = "add"
         if rng.random() < self.p_fault:
             if rng.random() < 0.2:
                 op = g.gen_invalid(sess)
